@@ -2,6 +2,7 @@ package main
 
 import (
 	"crypto/sha256"
+	"crypto/sha512"
 	"encoding/hex"
 	"encoding/json"
 	"fmt"
@@ -51,6 +52,11 @@ func (f *fakeRegistry) Do(req *http.Request) (*http.Response, error) {
 	return resp, nil
 }
 
+func sha512of(data []byte) string {
+	h := sha512.Sum512(data)
+	return "sha512:" + hex.EncodeToString(h[:])
+}
+
 func sha(data []byte) string {
 	h := sha256.Sum256(data)
 	return "sha256:" + hex.EncodeToString(h[:])
@@ -80,7 +86,7 @@ func (f *fakeRegistry) serve(w http.ResponseWriter, r *http.Request) {
 	case strings.HasPrefix(rest, "blobs/uploads/") && r.Method == http.MethodPut:
 		data, _ := io.ReadAll(r.Body)
 		dg := r.URL.Query().Get("digest")
-		if dg != sha(data) {
+		if dg != sha(data) && dg != sha512of(data) {
 			w.WriteHeader(http.StatusBadRequest)
 			return
 		}
@@ -91,6 +97,16 @@ func (f *fakeRegistry) serve(w http.ResponseWriter, r *http.Request) {
 		data, ok := f.blobs[strings.TrimPrefix(rest, "blobs/")]
 		if !ok {
 			w.WriteHeader(http.StatusNotFound)
+			return
+		}
+		if strings.HasPrefix(rest, "blobs/sha512:") {
+			w.Header().Set("Content-Type", "application/octet-stream")
+			w.Header().Set("Docker-Content-Digest", sha512of(data))
+			w.Header().Set("Content-Length", strconv.Itoa(len(data)))
+			w.WriteHeader(http.StatusOK)
+			if r.Method == http.MethodGet {
+				w.Write(data)
+			}
 			return
 		}
 		serveContent(data, "application/octet-stream")
